@@ -1,7 +1,7 @@
 (* C06/Props.v — validator-set updates handed to consensus are exactly the eligible top set.
    Statements only; every proof is a lemma of C06/Proofs.v (or a vm_compute witness for the refutations). *)
 From Coq Require Import List String Bool ZArith Lia Permutation Sorted.
-From Exo Require Import Base.Util C06.Model C06.Sorting C06.Proofs.
+From Exo Require Import Base.Util Base.IntDec C06.Model C06.Sorting C06.Proofs C06.Link.
 Import ListNotations.
 Local Open Scope Z_scope.
 Local Open Scope string_scope.
@@ -157,6 +157,94 @@ Proof.
   intros cs. split; [apply isort_perm | apply (isort_sorted cand_leb cand_leb_total cand_leb_trans)].
 Qed.
 Print Assumptions C06_sort_by_power_correct.
+
+(* ================= link to the registry model of C07/C16 (coq/Dogfood, invariant proved over all histories) =================
+   abs_opers / abs_prev / abs_norev (C06/Link.v) read a C06 input off a registry state; an, kn are ANY injective namings of
+   operators and keys, usd ANY assignment of USD value records, pw ANY stored powers, ops / ks ANY duplicate-free finite
+   lists of operators / keys. *)
+
+(* T12: for every REACHABLE registry state (any history of opt-in, key replacement, opt-out, jail, unjail, undelegation,
+   parameter changes and block boundaries with any selection) — and for the state inside the EndBlock that follows it,
+   where the candidates are actually read — the C07 hypotheses of the theorems above hold, so C06_result holds
+   unconditionally: consensus accepts the list and previous set + updates = eligible top set of the registry dump *)
+Theorem C06_result_reachable : forall an kn usd s0 h sel ops ks pw maxv,
+  (forall a b : Z, an a = an b -> a = b) -> (forall a b : Z, kn a = kn b -> a = b) ->
+  DP.Inv s0 -> NoDup ops -> NoDup ks ->
+  forall s, s = DM.hrun s0 h \/ s = fst (DM.step (DM.hrun s0 h) (DM.EndBlock sel)) ->
+  registry_ok (abs_opers an kn usd s ops) = true /\
+  wf_prev (abs_prev kn s ks pw) = true /\
+  forall cs, cands_of (abs_opers an kn usd s ops) = CandsOk cs ->
+    wf_cands cs = true /\
+    norev_ok (abs_norev kn s ks) (abs_prev kn s ks pw) cs = true /\
+    exists S, cmt_apply (abs_prev kn s ks pw) (end_block_diff (abs_prev kn s ks pw) cs maxv) [] = Some S /\
+              forall k, kv_get S k = kv_get (target maxv (eligible_opers (abs_opers an kn usd s ops))) k.
+Proof.
+  intros an kn usd s0 h sel ops ks pw maxv Ha Hk I0 Hno Hnk s Hs.
+  assert (I : DP.Inv s).
+  { destruct Hs as [Hs|Hs]; subst s; [apply DP.inv_hrun; exact I0|].
+    apply (DP.end_block_inv (DM.hrun s0 h) sel). apply DP.inv_hrun. exact I0. }
+  split; [apply registry_ok_inv; assumption|]. split; [apply wf_prev_abs; assumption|].
+  intros cs Hc. destruct (link_result an kn Ha Hk usd s ops ks pw maxv cs I Hno Hnk Hc) as [Hw Hex].
+  split; [exact Hw|]. split; [apply (norev_ok_abs an kn Hk usd s ops ks pw cs I Hc) | exact Hex].
+Qed.
+Print Assumptions C06_result_reachable.
+
+(* T13: the same for the whole EndBlock on the dogfood state, with the reverse lookups of the registry state: returned
+   list = end_block_diff, stored updates = returned, marker cleared, stored set = eligible top set, total = sum *)
+Theorem C06_stored_agree_reachable : forall an kn usd s0 h ops ks pw maxv cs tot upd,
+  (forall a b : Z, an a = an b -> a = b) -> (forall a b : Z, kn a = kn b -> a = b) ->
+  DP.Inv s0 -> NoDup ops -> NoDup ks ->
+  let s := DM.hrun s0 h in
+  cands_of (abs_opers an kn usd s ops) = CandsOk cs ->
+  let st := mkD (abs_prev kn s ks pw) tot upd true in
+  let out := fst (end_block st (Some cs) maxv (abs_norev kn s ks)) in
+  let st' := snd (end_block st (Some cs) maxv (abs_norev kn s ks)) in
+  out = end_block_diff (abs_prev kn s ks pw) cs maxv /\ d_upd st' = out /\ d_marker st' = false /\
+  (forall k, kv_get (d_vals st') k = kv_get (target maxv (eligible_opers (abs_opers an kn usd s ops))) k) /\
+  (tot = sum_pow (abs_prev kn s ks pw) -> d_total st' = sum_pow (d_vals st')).
+Proof.
+  intros an kn usd s0 h ops ks pw maxv cs tot upd Ha Hk I0 Hno Hnk s Hc.
+  apply (link_stored_agree an kn Ha Hk usd s ops ks pw maxv cs tot upd (DP.inv_hrun h s0 I0) Hno Hnk Hc).
+Qed.
+Print Assumptions C06_stored_agree_reachable.
+
+(* T14: cross-check of the eligibility predicate against the registry model (cf. C07_jailed_not_selected): every member of
+   the C06 target is an operator that — in the registry model's terms — is opted in, NOT jailed, holds that key as its
+   current key and is resolvable by it, with power at least 1; and handing the C06 selection to the registry model's
+   EndBlock as its external input stores exactly the key set of the C06 target *)
+Theorem C06_selection_matches_registry_model : forall an kn usd s ops maxv,
+  (forall a b : Z, an a = an b -> a = b) -> (forall a b : Z, kn a = kn b -> a = b) ->
+  DP.Inv s -> NoDup ops ->
+  (forall cd, In cd (top_k maxv (eligible_opers (abs_opers an kn usd s ops))) ->
+     exists o c, In o (sel_ids an kn usd s ops maxv) /\ c_key cd = kn c /\ DM.k_op s o = Some c /\
+                 DM.k_rev s c = Some o /\ DM.opted s o = true /\ DM.jailed s o = false /\ 1 <= c_pow cd) /\
+  (forall c, DM.new_valset s (sel_ids an kn usd s ops maxv) c = true <->
+             In (kn c) (map c_key (top_k maxv (eligible_opers (abs_opers an kn usd s ops))))).
+Proof.
+  intros an kn usd s ops maxv Ha Hk I Hn. split.
+  - intros cd Hin. apply (link_target_sound an kn usd s ops maxv cd I Hin).
+  - intros c. apply (link_selection_agrees an kn Ha Hk usd s ops maxv c I Hn).
+Qed.
+Print Assumptions C06_selection_matches_registry_model.
+
+(* non-vacuity of the link: the registry model's example state (two operators with keys 10 and 11, both validating), after
+   a history with a key replacement, a jailing and an opt-out, named by zname; operator 2 never registered a key *)
+Definition ex_usd (o : Z) : option (Z * Z) :=
+  if (o =? 0)%Z then Some (300 * P, 300 * P) else if (o =? 1)%Z then Some (200 * P, 200 * P) else None.
+Definition ex_link_hist : list DM.hop :=
+  [DM.Tx (DM.SetKey 0 12); DM.Tx (DM.Jail 11); DM.NextBlock [0; 1] true; DM.Tx (DM.Unjail 11); DM.Tx (DM.OptOut 1)].
+Example ex_link :
+  DP.Inv DP.ex_state /\ NoDup [0; 1; 2] /\ NoDup [10; 11; 12; 13] /\
+  let s := DM.hrun DP.ex_state ex_link_hist in
+  cands_of (abs_opers zname zname ex_usd s [0; 1; 2]) = CandsOk [mkCand (zname 0) (zname 12) 300] /\
+  abs_prev zname s [10; 11; 12; 13] (fun _ => 7) = [(zname 10, 7); (zname 11, 7)] /\
+  end_block_diff (abs_prev zname s [10; 11; 12; 13] (fun _ => 7))
+                 [mkCand (zname 0) (zname 12) 300] 100 = [(zname 12, 300); (zname 11, 0); (zname 10, 0)] /\
+  sel_ids zname zname ex_usd s [0; 1; 2] 100 = [0].
+Proof.
+  split; [exact DP.ex_state_inv|]. split; [repeat constructor; simpl; intuition lia|].
+  split; [repeat constructor; simpl; intuition lia|]. vm_compute. repeat split; reflexivity.
+Qed.
 
 (* ---- non-vacuity: concrete inputs meeting the hypotheses, with ties, sub-unit power, more eligible than max,
         a replaced key and a removed validator ---- *)
